@@ -41,7 +41,30 @@ type curryAPI interface {
 
 type curryInt struct{ c *fpgo.CurryDef[int, int] }
 
-func (w curryInt) call(args []int)     { w.c.Call(args...) }
+// call hands the block over as a spread slice with spare capacity and then reuses (overwrites) its
+// buffer, as a caller filling one scratch buffer per Call does: the curry must have taken its own
+// copy of the arguments, and must not write into the caller's spare capacity.
+func (w curryInt) call(args []int) {
+	buf := make([]int, len(args), len(args)+4)
+	copy(buf, args)
+	ext := buf[:cap(buf)]
+	for i := len(args); i < len(ext); i++ {
+		ext[i] = -555
+	}
+	w.c.Call(buf...)
+	for i := len(args); i < len(ext); i++ {
+		if ext[i] != -555 {
+			atomic.AddInt64(&callerBufferWritten, 1)
+		}
+	}
+	for i := range buf {
+		buf[i] = -777
+	}
+}
+
+// callerBufferWritten counts writes of the library into a caller's argument buffer beyond its length.
+var callerBufferWritten int64
+
 func (w curryInt) markDone()           { w.c.MarkDone() }
 func (w curryInt) isDone() bool        { return w.c.IsDone() }
 func (w curryInt) result() (int, bool) { return w.c.Result(), true }
@@ -51,11 +74,14 @@ type curryIface struct {
 }
 
 func (w curryIface) call(args []int) {
-	xs := make([]interface{}, len(args))
+	xs := make([]interface{}, len(args), len(args)+4)
 	for i, a := range args {
 		xs[i] = a
 	}
 	w.c.Call(xs...)
+	for i := range xs {
+		xs[i] = -777 // the caller reuses its buffer
+	}
 }
 func (w curryIface) markDone()    { w.c.MarkDone() }
 func (w curryIface) isDone() bool { return w.c.IsDone() }
@@ -332,6 +358,9 @@ func propCurry(t *rapid.T) {
 	s.Class(fmt.Sprintf("currydef/mode=%d", sc.Mode))
 	if o.nontrivial {
 		s.NonTrivial("currydef", o.desc)
+	}
+	if o.failKey == "" && atomic.SwapInt64(&callerBufferWritten, 0) > 0 {
+		o.failKey, o.failMsg = "C20/CurryDef/caller-buffer", "Call(buf...) wrote into the caller's argument buffer beyond its length"
 	}
 	if o.failKey != "" {
 		vlib.WriteReplay("C20/curry", sc)
